@@ -114,7 +114,7 @@ def plan(tier, seed):
             for space in ("1rtt", "handshake"):
                 fl.append({"gen": "flood_crypto", "victim": victim, "space": space, "variant": "gap", "n": 3000 * scale, "seed": s})
             fl.append({"gen": "flood_crypto", "victim": victim, "space": "1rtt", "variant": "contig", "n": min(700 * scale, 3000), "seed": s})
-            for variant in ("same", "same_burst", "vary_probe", "vary_promote", "few_burst"):
+            for variant in ("same", "same_burst", "vary_probe", "vary_promote", "few_burst", "lost_responses"):
                 # R looks a source address up linearly: keep the many-address runs below 2*10^4 datagrams
                 nn = min(6000 * scale, 20000) if variant.startswith("vary") else 6000 * scale
                 fl.append({"gen": "flood_challenge", "victim": victim, "variant": variant, "n": nn, "seed": s})
@@ -1034,6 +1034,41 @@ def gen_flood_challenge(batch, res):
     closed = None
     frames = 0
     base_done = False
+    if variant == "lost_responses":
+        # packets with 32 PATH_CHALLENGE frames each; P never acknowledges the packets that carry R's PATH_RESPONSEs and
+        # every few rounds acknowledges only R's newest packet, so that R declares all the earlier ones lost at once:
+        # whatever R does about lost responses, the queue per path stays within its documented bound
+        rng = random.Random("c07-lost-responses/%s" % batch["seed"])
+        k = 0
+        for rnd in range(max(1, n // 400)):
+            try:
+                for _ in range(rng.choice([2, 4, 8])):
+                    payload = b"".join(F.f_path_challenge((batch["seed"] * 1000003 + k + j).to_bytes(8, "big", signed=False)[-8:]) for j in range(32))
+                    k += 32
+                    views = pup.deliver(pup.packet("1rtt", payload))
+                    frames += 32
+                    closed = r_closed(pup, views)
+                    b.measure(closed)
+                    if closed:
+                        break
+                if closed:
+                    break
+                lg = pup.tap.largest.get((pup.victim_name, "A"))
+                sel = F.f_ack([(lg, lg)]) if (lg is not None and rng.random() < 0.7) else ack_prefix(pup)
+                views = pup.deliver(pup.packet("1rtt", sel + F.f_ping()))
+                views += pup.cycle(steps=2, max_advance=rng.choice([0.0, 0.02, 0.5]))
+                res.count("o2_selective_acks_after_challenge_floods")
+            except ApiRaised as exc:
+                res.count("obs_api_raised_" + type(exc.exc).__name__)
+                break
+            closed = r_closed(pup, views)
+            b.measure(closed)
+            trim(pup)
+            if closed:
+                break
+        b.measure(closed)
+        flood_finish(res, batch, b, frames, closed)
+        return
     for i in range(n):
         data = (batch["seed"] * 1000003 + i).to_bytes(8, "big", signed=False)[-8:]
         addr = None
